@@ -194,6 +194,18 @@ fn load_relevant_coins<C: ContentAddrStore>(
             return Err(StateError::MalformedTx);
         }
 
+        // `Transaction::weight` adds up the weights of the covenants with a plain sum; each of them can
+        // be as large as u128::MAX (a saturated weight), so two heavy covenants overflow it: a panic with
+        // overflow checks, and without them a wrapped, tiny weight that lets the transaction underpay.
+        if tx
+            .covenants
+            .iter()
+            .try_fold(0u128, |sum, cov| sum.checked_add(covenant_weight_from_bytes(cov)))
+            .is_none()
+        {
+            return Err(StateError::MalformedTx);
+        }
+
         let coins_to_add = output_coins_from_tx(tx, this.height);
         if !coins_to_add.is_empty() {
             accum.extend(coins_to_add);
